@@ -1,21 +1,48 @@
 (** Protocol operations for C11 (see Lib/Val.v).
-    Domain of every op: from >= 0, 0 <= w <= 32 (w = to-from resp. the height),
-    from + w + 7 < 2^31, every byte in [0,256). *)
+    Domain of every op: 0 <= from < 2^31 (an int32), 0 <= w <= 32 (w = int32(to-from) resp.
+    the height), every byte in [0,256), and either from + w + 7 < 2^31 (no int32 overflow)
+    or the start is at/beyond the end of the string (8*len(s) <= from; then from + w may
+    wrap negative, as PathOf's own frombit+height does near MaxInt32). *)
 From Coq Require Import ZArith List Bool String.
-From Low Require Import Lib.Bits Lib.BitSeq Lib.Bytes Lib.Val Model.BmtreePath Model.BmtreePathStr Model.FromStr32 Spec.FromStr32Spec Spec.PathsOfSortedSpec.
+From Low Require Import Lib.MachInt Lib.Bits Lib.BitSeq Lib.Bytes Lib.Val Model.BmtreePath Model.BmtreePathStr Model.FromStr32 Spec.FromStr32Spec Spec.PathsOfSortedSpec.
 Import ListNotations.
 Open Scope string_scope.
 Open Scope Z_scope.
 
 Definition c11_dom (from w : Z) : bool :=
   (0 <=? from) && (0 <=? w) && (w <=? 32) && (from + w + 7 <? 2^31).
+(* one string *)
+Definition c11_dom1 (s : list Z) (from w : Z) : bool :=
+  (0 <=? from) && (from <? 2^31) && (0 <=? w) && (w <=? 32) &&
+  ((from + w + 7 <? 2^31) || (8 * zlen s <=? from)).
+(* a key list *)
+Definition c11_domk (keys : list (list Z)) (from w : Z) : bool :=
+  (0 <=? from) && (from <? 2^31) && (0 <=? w) && (w <=? 32) &&
+  forallb (fun s => (from + w + 7 <? 2^31) || (8 * zlen s <=? from)) keys.
+
+(* compact form of long key lists: an alphabet of keys and runs [index, count] *)
+Definition expand_runs (alpha : list (list Z)) (runs : list (list Z)) : option (list (list Z)) :=
+  if forallb (fun r => match r with
+                       | [i; c] => (0 <=? i) && (i <? zlen alpha) && (0 <=? c) && (c <=? 10000)
+                       | _ => false end) runs
+  then Some (flat_map (fun r => match r with
+                                | [i; c] => repeat (nth (Z.to_nat i) alpha []) (Z.to_nat c)
+                                | _ => [] end) runs)
+  else None.
+(* run-length encoding of a result: [[value, count], ...] *)
+Fixpoint rle_from (x c : Z) (l : list Z) : list (list Z) :=
+  match l with
+  | [] => [[x; c]]
+  | y :: t => if y =? x then rle_from x (c + 1) t else [x; c] :: rle_from y 1 t
+  end.
+Definition rle (l : list Z) : list (list Z) := match l with [] => [] | x :: t => rle_from x 1 t end.
 
 Definition ops_C11 : list opdef := [
   {| op_name := "bitmap.FromStr32";
      op_run := fun a => match a with
        | [s; from; to] => match as_zs s, as_z from, as_z to with
            | Some s, Some from, Some to =>
-               if c11_dom from (to - from) && bytes_okb s then
+               if c11_dom1 s from (i32 (to - from)) && (- 2^31 <=? to) && (to <? 2^31) && bytes_okb s then
                  match FromStr32 s from to with Some (k, v) => VL [VZ k; VZ v] | None => VPanic end
                else VBad
            | _, _, _ => VBad end
@@ -23,14 +50,14 @@ Definition ops_C11 : list opdef := [
      op_spec := fun_spec (fun a => match a with
        | [s; from; to] => match as_zs s, as_z from, as_z to with
            | Some s, Some from, Some to =>
-               let r := spec_FromStr32 s from (to - from) in VL [VZ (fst r); VZ (snd r)]
+               let r := spec_FromStr32 s from (i32 (to - from)) in VL [VZ (fst r); VZ (snd r)]
            | _, _, _ => VBad end
        | _ => VBad end) |};
   {| op_name := "bmtree.PathOf";
      op_run := fun a => match a with
        | [s; from; h] => match as_zs s, as_z from, as_z h with
            | Some s, Some from, Some h =>
-               if c11_dom from h && bytes_okb s then
+               if c11_dom1 s from h && bytes_okb s then
                  match PathOf s from h with Some p => VZ p | None => VPanic end
                else VBad
            | _, _, _ => VBad end
@@ -45,7 +72,7 @@ Definition ops_C11 : list opdef := [
      op_run := fun a => match a with
        | [s; from; h] => match as_zs s, as_z from, as_z h with
            | Some s, Some from, Some h =>
-               if c11_dom from h && bytes_okb s then
+               if c11_dom1 s from h && bytes_okb s then
                  match PathOf s from h with Some p => vzs (PathStr p) | None => VPanic end
                else VBad
            | _, _, _ => VBad end
@@ -59,7 +86,7 @@ Definition ops_C11 : list opdef := [
      op_run := fun a => match a with
        | [keys; from; h; dd] => match as_zss keys, as_z from, as_z h, as_bool dd with
            | Some keys, Some from, Some h, Some dd =>
-               if c11_dom from h && forallb bytes_okb keys then
+               if c11_domk keys from h && forallb bytes_okb keys then
                  match PathsOf keys from h dd with Some ps => vzs ps | None => VPanic end
                else VBad
            | _, _, _, _ => VBad end
@@ -76,7 +103,7 @@ Definition ops_C11 : list opdef := [
        | [keys1; keys2; from; h; dd] =>
            match as_zss keys1, as_zss keys2, as_z from, as_z h, as_bool dd with
            | Some keys1, Some keys2, Some from, Some h, Some dd =>
-               if c11_dom from h && forallb bytes_okb keys1 && forallb bytes_okb keys2 then
+               if c11_domk keys1 from h && c11_domk keys2 from h && forallb bytes_okb keys1 && forallb bytes_okb keys2 then
                  match PathsOf keys1 from h dd, PathsOf keys2 from h dd with
                  | Some p1, Some p2 => VL [vzs p1; vzs p2]
                  | _, _ => VPanic end
@@ -95,7 +122,7 @@ Definition ops_C11 : list opdef := [
      op_run := fun a => match a with
        | [s; from; h] => match as_zs s, as_z from, as_z h with
            | Some s, Some from, Some h =>
-               if c11_dom from h && bytes_okb s then
+               if c11_dom1 s from h && bytes_okb s then
                  match PathOf s from h with
                  | Some p => vzs [PathLen p; PathHeight p; PathBits p; PathMask p]
                  | None => VPanic end
@@ -113,7 +140,7 @@ Definition ops_C11 : list opdef := [
      op_run := fun a => match a with
        | [keys; from; h] => match as_zss keys, as_z from, as_z h with
            | Some keys, Some from, Some h =>
-               if c11_dom from h && forallb bytes_okb keys && keys_sortedb keys && same_prefixb from keys then
+               if c11_domk keys from h && forallb bytes_okb keys && keys_sortedb keys && same_prefixb from keys then
                  match PathsOf keys from h true with Some ps => vzs ps | None => VPanic end
                else VBad
            | _, _, _ => VBad end
@@ -123,6 +150,55 @@ Definition ops_C11 : list opdef := [
            | Some keys, Some from, Some h, Some ps => sorted_paths_ok keys from h ps
            | _, _, _, _ => false end
        | _ => false end |};
+  (* long key lists in compact form: PathsOf(expand alpha runs, from, h, dd), result run-length encoded *)
+  {| op_name := "bmtree.PathsOf/runs";
+     op_run := fun a => match a with
+       | [alpha; runs; from; h; dd] =>
+           match as_zss alpha, as_zss runs, as_z from, as_z h, as_bool dd with
+           | Some alpha, Some runs, Some from, Some h, Some dd =>
+               match expand_runs alpha runs with
+               | Some keys =>
+                   if c11_domk alpha from h && forallb bytes_okb alpha then
+                     match PathsOf keys from h dd with Some ps => vzss (rle ps) | None => VPanic end
+                   else VBad
+               | None => VBad end
+           | _, _, _, _, _ => VBad end
+       | _ => VBad end;
+     op_spec := fun_spec (fun a => match a with
+       | [alpha; runs; from; h; dd] =>
+           match as_zss alpha, as_zss runs, as_z from, as_z h, as_bool dd with
+           | Some alpha, Some runs, Some from, Some h, Some dd =>
+               match expand_runs alpha runs with
+               | Some keys => vzss (rle (spec_PathsOf keys from h dd))
+               | None => VBad end
+           | _, _, _, _, _ => VBad end
+       | _ => VBad end) |};
+  (* the same, two calls, both results rendered after the second *)
+  {| op_name := "bmtree.PathsOf/runs/held";
+     op_run := fun a => match a with
+       | [alpha; runs1; runs2; from; h; dd] =>
+           match as_zss alpha, as_zss runs1, as_zss runs2, as_z from, as_z h, as_bool dd with
+           | Some alpha, Some runs1, Some runs2, Some from, Some h, Some dd =>
+               match expand_runs alpha runs1, expand_runs alpha runs2 with
+               | Some keys1, Some keys2 =>
+                   if c11_domk alpha from h && forallb bytes_okb alpha then
+                     match PathsOf keys1 from h dd, PathsOf keys2 from h dd with
+                     | Some p1, Some p2 => VL [vzss (rle p1); vzss (rle p2)]
+                     | _, _ => VPanic end
+                   else VBad
+               | _, _ => VBad end
+           | _, _, _, _, _, _ => VBad end
+       | _ => VBad end;
+     op_spec := fun_spec (fun a => match a with
+       | [alpha; runs1; runs2; from; h; dd] =>
+           match as_zss alpha, as_zss runs1, as_zss runs2, as_z from, as_z h, as_bool dd with
+           | Some alpha, Some runs1, Some runs2, Some from, Some h, Some dd =>
+               match expand_runs alpha runs1, expand_runs alpha runs2 with
+               | Some keys1, Some keys2 =>
+                   VL [vzss (rle (spec_PathsOf keys1 from h dd)); vzss (rle (spec_PathsOf keys2 from h dd))]
+               | _, _ => VBad end
+           | _, _, _, _, _, _ => VBad end
+       | _ => VBad end) |};
   (* FromStr32 over [from,from+w1), [from+w1,from+w1+w2) and [from,from+w1+w2): the three
      results, judged by the functional spec and by the composition relation *)
   {| op_name := "bitmap.FromStr32/split";
